@@ -224,16 +224,29 @@ func TestFieldTriples(t *testing.T) {
 	e.flush()
 }
 
-// drawConf draws a configuration. Endpoint-specific configurations mostly set
-// only fields an endpoint may set, so that most triples are accepted.
+// drawConf draws a configuration. Endpoint-specific configurations set only
+// fields an endpoint may set, except that one in ten also sets one field it
+// may not, so that most triples are accepted.
 func drawConf(rt *rapid.T, label string, endpoint bool) Conf {
 	var c Conf
-	for _, f := range fields {
-		density := 3
-		if endpoint && !endpointSettable[f.name] {
-			density = 40
+	stray := ""
+	if endpoint && rapid.IntRange(0, 9).Draw(rt, label+".stray") == 9 {
+		var names []string
+		for _, f := range fields {
+			if !endpointSettable[f.name] {
+				names = append(names, f.name)
+			}
 		}
-		if rapid.IntRange(0, density).Draw(rt, label+"."+f.name+".set") != 0 {
+		stray = rapid.SampledFrom(names).Draw(rt, label+".strayField")
+	}
+	for _, f := range fields {
+		if endpoint && !endpointSettable[f.name] {
+			if f.name == stray {
+				f.set(&c, rapid.IntRange(1, f.size-1).Draw(rt, label+"."+f.name))
+			}
+			continue
+		}
+		if rapid.IntRange(0, 3).Draw(rt, label+"."+f.name+".set") != 3 {
 			continue
 		}
 		f.set(&c, rapid.IntRange(0, f.size-1).Draw(rt, label+"."+f.name))
@@ -243,8 +256,8 @@ func drawConf(rt *rapid.T, label string, endpoint bool) Conf {
 
 // repair replaces values that make a configuration unacceptable on their own,
 // so that the random part spends most of its budget on accepted triples.
-func repair(rt *rapid.T, c *Conf, label string) {
-	if rapid.IntRange(0, 9).Draw(rt, label+".keepInvalid") == 0 {
+func repair(rt *rapid.T, c *Conf, label string, endpoint bool) {
+	if rapid.IntRange(0, 9).Draw(rt, label+".keepInvalid") == 9 {
 		return
 	}
 	fix := func(name string, v *int32) {
@@ -265,6 +278,9 @@ func repair(rt *rapid.T, c *Conf, label string) {
 	fix("Compression", &c.Compression)
 	c.FileMode &= 0o777
 	c.DirMode &= 0o777
+	if !endpoint && effectivePortable(*c) && rapid.IntRange(0, 3).Draw(rt, label+".keepExecutable") != 3 {
+		c.FileMode &^= executableBits
+	}
 	if !ownershipIdentifierValid(c.Owner) {
 		c.Owner = ""
 	}
@@ -281,9 +297,9 @@ func TestRandomTriples(t *testing.T) {
 	_, listed := listedKnown()
 	ev.Check(t, rec, 40000, 600000, func(rt *rapid.T) {
 		c := &Case{Session: drawConf(rt, "session", false), Alpha: drawConf(rt, "alpha", true), Beta: drawConf(rt, "beta", true)}
-		repair(rt, &c.Session, "session")
-		repair(rt, &c.Alpha, "alpha")
-		repair(rt, &c.Beta, "beta")
+		repair(rt, &c.Session, "session", false)
+		repair(rt, &c.Alpha, "alpha", true)
+		repair(rt, &c.Beta, "beta", true)
 		if listed && knownClassOf(c) != "" {
 			rec.Excluded(ClassEndpointExecutableMode)
 			return
@@ -331,8 +347,8 @@ func TestRealEndpoints(t *testing.T) {
 	_, listed := listedKnown()
 	ev.Check(t, rec, 150, 3000, func(rt *rapid.T) {
 		c := &Case{Session: drawConf(rt, "session", false), Alpha: drawConf(rt, "alpha", true), Beta: drawConf(rt, "beta", true), Endpoints: true}
-		for _, conf := range []*Conf{&c.Session, &c.Alpha, &c.Beta} {
-			repair(rt, conf, "repair")
+		for i, conf := range []*Conf{&c.Session, &c.Alpha, &c.Beta} {
+			repair(rt, conf, fmt.Sprint("repair", i), i > 0)
 			initialisable(conf)
 		}
 		if listed && knownClassOf(c) != "" {
